@@ -41,8 +41,10 @@ std::vector<Violation> run_diff(const Plan& base, Sim** keep, std::string* detai
         p = base;
         p.knobs.net.chunk_mode = mode;
         p.knobs.net.chunk_salt = mode == 2 ? 0x9e3779b9ull : 0;
-        auto s = std::make_unique<Sim>(p, false);
+        const char* tr = getenv("SIMC_DIFF_TRACE");            // debugging aid: print the event trace of one chunking
+        auto s = std::make_unique<Sim>(p, tr && atoi(tr) == mode + 1);
         s->execute();
+        if (tr && atoi(tr) == mode + 1) for (auto& l : s->w.trace) puts(l.c_str());
         std::string t = logical_trace(*s);
         if (s->livelock) out.push_back({"C19", "livelock", "chunk mode " + std::to_string(mode)});
         if (ref_mode < 0) { ref = t; ref_mode = mode; }
